@@ -1130,3 +1130,130 @@ Inductive print_equiv : list clause -> list clause -> Prop :=
 | pe_cons c l l' : print_equiv l l' -> print_equiv (c :: l) (c :: l')
 | pe_swap c d m l : watch_of c = Some m -> watch_of d = Some m -> print_equiv (c :: d :: l) (d :: c :: l)
 | pe_trans l1 l2 l3 : print_equiv l1 l2 -> print_equiv l2 l3 -> print_equiv l1 l3.
+
+(** * [render]: the concrete text of a clause list, in printCfg's layout
+    (sections opened when the kind of clause changes, two blanks of
+    indentation, commands and `with` environments through escapeNl, the one
+    comment printCfg emits even without comments after `repeat from`).
+    Applied to a printed clause list it gives the bytes printCfg writes; the
+    correspondence run checks that on every case, so that the clause lists it
+    compares stand for the real text. *)
+Definition esc_nl (s : bytes) : bytes :=
+  flat_map (fun c => if Byte.eqb c x0a then [x5c; x0a] else [c]) s.
+
+Fixpoint join_with (sep : bytes) (l : list bytes) : bytes :=
+  match l with
+  | [] => []
+  | [x] => x
+  | x :: tl => x ++ sep ++ join_with sep tl
+  end.
+
+Definition render_target (tg : target) : bytes :=
+  match tg with TActor a => a | TEvery r => bs "every " ++ r end.
+
+Definition render_role_line (l : role_line) : bytes :=
+  match l with
+  | RAction n c => bs ":" ++ n ++ bs " " ++ esc_nl c
+  | RSpotlight c => bs "spotlight " ++ esc_nl c
+  | RCleanup c => bs "cleanup " ++ esc_nl c
+  | RSignal n t r => bs "signal " ++ n ++ bs " " ++ t ++ bs " at " ++ r
+  end.
+
+Inductive section := SecTop | SecCast | SecScript | SecAudience | SecInterp.
+
+Definition section_of (c : clause) : section :=
+  match c with
+  | CTitle _ | CAuthor _ | CAttention _ | CParam _ _ | CRole _ _ _ => SecTop
+  | CCast _ _ _ _ _ => SecCast
+  | CTempo _ | CEntails _ _ _ | CMoodStart _ _ | CMoodEnd _ _ | CStoryline _ | CEdit _ _
+  | CRepeatFrom _ | CRepeatCount _ | CRepeatAlways | CRepeatTime _ => SecScript
+  | CIgnoreAll _ | CInterp _ _ _ => SecInterp
+  | _ => SecAudience
+  end.
+
+Definition section_eqb (a b : section) : bool :=
+  match a, b with
+  | SecTop, SecTop | SecCast, SecCast | SecScript, SecScript | SecAudience, SecAudience | SecInterp, SecInterp => true
+  | _, _ => false
+  end.
+
+Definition section_header (s : section) : bytes :=
+  match s with
+  | SecTop => []
+  | SecCast => bs "cast"
+  | SecScript => bs "script"
+  | SecAudience => bs "audience"
+  | SecInterp => bs "interpretation"
+  end.
+
+(** one clause as one line (a role: its header line) *)
+Definition render_line (c : clause) : bytes :=
+  match c with
+  | CTitle t => bs "title " ++ t
+  | CAuthor t => bs "author " ++ t
+  | CAttention t => bs "attention " ++ t
+  | CParam n v => bs "parameter " ++ n ++ bs " defaults to " ++ v
+  | CRole n ext _ => bs "role " ++ n ++ (match ext with None => [] | Some e => bs " extends " ++ e end)
+  | CCast a star mul r env =>
+      a ++ (if star then bs "*" else [])
+      ++ (match mul with None => bs " plays " | Some m => bs " play " ++ m ++ bs " " end)
+      ++ r ++ (if is_nil env then [] else bs " with " ++ esc_nl env)
+  | CTempo d => bs "tempo " ++ d
+  | CEntails ch tg acts =>
+      bs "scene " ++ ch ++ bs " entails for " ++ render_target tg ++ bs ": " ++ join_with (bs "; ") acts
+  | CMoodStart ch m => bs "scene " ++ ch ++ bs " mood starts " ++ m
+  | CMoodEnd ch m => bs "scene " ++ ch ++ bs " mood ends " ++ m
+  | CStoryline t => bs "storyline " ++ t
+  | CEdit p r => bs "edit s/" ++ p ++ bs "/" ++ r ++ bs "/"
+  | CRepeatFrom re => bs "repeat from " ++ re
+  | CRepeatCount n => bs "repeat " ++ n ++ bs " times"
+  | CRepeatAlways => bs "repeat always"
+  | CRepeatTime d => bs "repeat time " ++ d
+  | CWatches m tg g => m ++ bs " watches " ++ render_target tg ++ bs " " ++ g
+  | CWatchVar m v => m ++ bs " watches " ++ v
+  | CMeasures m l => m ++ bs " measures " ++ l
+  | COnlyHelps m => m ++ bs " only helps"
+  | CAudits m e => m ++ bs " audits only while " ++ e
+  | CAuditsAll m => m ++ bs " audits throughout"
+  | CExpects m f e => m ++ bs " expects " ++ f ++ bs ": " ++ e
+  | CExpectsLike m t => m ++ bs " expects like " ++ t
+  | CCollects m v md n e => m ++ bs " collects " ++ v ++ bs " as " ++ md ++ bs " " ++ n ++ bs " " ++ e
+  | CComputes m v e => m ++ bs " computes " ++ v ++ bs " as " ++ e
+  | CIgnoreAll r => bs "ignore " ++ r
+  | CInterp md t r =>
+      (if bytes_eqb md (bs "foul") then bs "foul upon" else md) ++ bs " " ++ t ++ bs " " ++ r
+  end.
+
+Definition nl : bytes := [x0a].
+Definition end_line : bytes := bs "end" ++ nl.
+
+Definition close_section (open : section) : bytes :=
+  match open with SecTop => [] | _ => end_line end.
+
+Definition repeat_comment (actnum : Z) : bytes :=
+  if 0 <? actnum then bs "  # (repeating act " ++ itoa_z actnum ++ bs " and following)" ++ nl
+  else bs "  # (no matching act, nothing is repeated)" ++ nl.
+
+Fixpoint render_from (open : section) (actnum : Z) (cl : list clause) : bytes :=
+  match cl with
+  | [] => close_section open
+  | c :: tl =>
+      let sec := section_of c in
+      match sec with
+      | SecTop =>
+          close_section open
+          ++ render_line c ++ nl
+          ++ (match c with
+              | CRole _ _ ls => flat_map (fun l => bs "  " ++ render_role_line l ++ nl) ls ++ end_line
+              | _ => []
+              end)
+          ++ render_from SecTop actnum tl
+      | _ =>
+          (if section_eqb sec open then [] else close_section open ++ section_header sec ++ nl)
+          ++ bs "  " ++ render_line c ++ nl
+          ++ (match c with CRepeatFrom _ => repeat_comment actnum | _ => [] end)
+          ++ render_from sec actnum tl
+      end
+  end.
+
+Definition render (actnum : Z) (cl : list clause) : bytes := render_from SecTop actnum cl.
